@@ -536,6 +536,52 @@ def dao_args(prog: Program) -> RuleResult:
     return r
 
 
+def dao_kwargs(prog: Program) -> RuleResult:
+    """from_dao hands the constructor one argument for every column / relationship that carries a constructor parameter's name. Whether
+    an argument is handed over is decided by the mapper's metadata (the name, the kind of column, the direction of the relationship) and
+    never by the value found: None, 0, '' and an empty collection are values like any other - a skipped None leaves a parameter without
+    default unset (the TypeError of the constructor is swallowed by the assign fall-back and the attribute never exists). Decision table
+    of the two collectors with the loop over the mapper's entries taken generically."""
+    from ..dtable import explore, Sym, App, term
+
+    r = RuleResult("DAO-KWARGS", "whether from_dao hands a constructor argument over depends on the mapper's metadata, never on the value", floor=2)
+    dao = prog.cls(DAO + ".DataAccessObject")
+    n = 0
+    for name in ("_collect_scalar_kwargs", "_collect_relationship_kwargs"):
+        f = prog.lookup(dao.qual, name)
+        if f is None:
+            continue
+        n += 1
+        paths = explore(prog, f, [Sym(p) for p in f.params], self_type=dao.qual, max_paths=2000, generic_loops=True)
+        if len(paths) < 3:
+            raise AnalysisError(f"DAO-KWARGS: only {len(paths)} paths through {f.short}")
+        skipped = None
+        unrelated = None
+        stored = 0
+        for val, out, calls in paths:
+            if out[0] != "return":
+                continue
+            sets = [x for x in calls if isinstance(x, App) and x.fn == "setitem" and len(x.args) == 3 and "elem(" in term(x.args[1])]
+            value_atoms = [k for k in val if any("getattr(self, elem(" in str(part) for part in k[1:])]
+            if not sets and value_atoms and skipped is None:
+                skipped = ", ".join(f"{' '.join(str(p) for p in k[1:])} = {val[k]}" for k in value_atoms)[:160]
+            for x in sets:
+                stored += 1
+                if "getattr(self, elem(" not in term(x.args[2]) and unrelated is None:
+                    unrelated = term(x)[:140]
+        if stored == 0:
+            raise AnalysisError(f"DAO-KWARGS: no path of {f.short} stores an argument")
+        r.check(skipped is None, f"{f.short}#value-never-decides", site(f), f"{len(paths)} paths", "no path skips the argument because of the value found",
+                f"{f.short} leaves the argument out on a path decided by the value ({skipped}): an optional field that is None (or a falsy value) is not handed to the "
+                "constructor - a parameter without default stays unset, the swallowed TypeError turns into attribute assignment and the attribute is missing from the "
+                "reconstructed object (an alternatively mapped object then fails in create_from_dao)")
+        r.check(unrelated is None, f"{f.short}#argument-is-the-stored-value", site(f), "", "what is handed over derives from the attribute of the same name",
+                f"{unrelated} does not derive from the DAO's attribute of that name")
+    if n < 2:
+        raise AnalysisError("DAO-KWARGS: the scalar / relationship collectors of from_dao vanished (_collect_scalar_kwargs, _collect_relationship_kwargs)")
+    return r
+
+
 def _opt_truth(prog):
     # the conversion states are passed down optionally; `state or State()` must only ever replace None
     from .opttruth import opt_truth
@@ -551,4 +597,4 @@ def _shared_default(prog):
 
 
 def run(prog: Program, tier: str) -> List[RuleResult]:
-    return [idkey(prog), dao_order(prog), dao_direction(prog), dao_collect(prog), dao_window(prog), dao_value_truth(prog), dao_fresh(prog), _opt_truth(prog), _shared_default(prog), dao_args(prog)]
+    return [idkey(prog), dao_order(prog), dao_direction(prog), dao_collect(prog), dao_window(prog), dao_value_truth(prog), dao_fresh(prog), _opt_truth(prog), _shared_default(prog), dao_args(prog), dao_kwargs(prog)]
